@@ -1,3 +1,4 @@
+import OdfProofs.TableObj
 import OdfProofs.TableHist
 
 /-!
@@ -127,5 +128,34 @@ theorem set_column_values_refines (t : Tbl) (h : Inv t) (x : Int) (cells : List 
 
 theorem set_column_values_wrong_length (t : Tbl) (x : Int) (cells : List Nat) (hl : cells.length ≠ height t) :
     setColumnValues t x cells = none := setColumnValues_wrong_length t x cells hl
+
+
+/-! ## through the caches of wrapper objects
+
+The theorems above speak of the table as XML + position maps.  The table object also keeps `Row` /
+`Cell` wrappers created by earlier reads (`OdfModel/TableObj.lean`, proofs in `OdfProofs/TableObj.lean`,
+C02).  Composing the two refinements: a history of the 13 mutators INTERLEAVED WITH READS that fill those
+caches, run through the caches, answers at every step exactly what the plain list-of-lists grid answers. -/
+open Odf.TableObj in
+theorem history_through_caches_is_the_grid (ops : List OOp) (t : Tbl) (h : Inv t) (hfit : GridFit (absT t))
+    (hv : ∀ op ∈ muts ops, op.Valid)
+    (hlimbo : ∀ k, k ≤ (muts ops).length → NoLimbo (grun (absT t) ((muts ops).take k))) :
+    ∃ o', orun (parsed t) ops = some (o', grunAll (absT t) ops) ∧ absT o'.t = grun (absT t) (muts ops) := by
+  obtain ⟨o', ans, e, f, _, _⟩ := cached_history ops (parsed t) (CacheOk.parsed t) h hfit hv hlimbo
+  obtain ⟨t', f', a⟩ := frun_is_grid ops t h hfit hv hlimbo
+  have hf : frun t ops = some (o'.t, ans) := f
+  rw [f'] at hf
+  simp only [Option.some.injEq, Prod.mk.injEq] at hf
+  obtain ⟨ht, ha⟩ := hf
+  exact ⟨o', by rw [e, ← ha], by rw [← ht]; exact a⟩
+
+/-! non-vacuity: a history with reads before and after edits, evaluated on both sides -/
+open Odf.TableObj in
+example :
+    let t := parse [(0, 3)] [([(1, 1), (0, 2)], 1), ([(2, 1)], 2)]
+    let ops : List OOp := [.readRow 1, .edit (.insertColumn 0 1), .readRow 1, .readValue 1 0, .edit (.setCell 3 2 5 1), .readRow 2]
+    (orun (parsed t) ops).map (·.2) = some (grunAll (absT t) ops) ∧
+      grunAll (absT t) ops = [[2, 0, 0], [], [0, 2, 0, 0], [1], [], [0, 2, 0, 5]] := by
+  decide +kernel
 
 end Odf.C01
